@@ -122,6 +122,7 @@ def _encode_case(args):
     return res
 
 
+RENDER_VALUES = ['a\\b', 'x\\', "it's", 'a%b', 'a"b', "\\' or 1=1 -- ", 'a:b', 'é\n']
 RENDER_SPECS = [('mysql', 't_bq'), ('postgresql', 't_dq'), ('postgres', 't_dq'), ('sqlite', 't_dq'), ('mssql', 't_br'), ('oracle', 't_dq'),
                 ('class:mysql', 't_bq'), ('class:postgresql', 't_dq'), ('class:sqlite', 't_dq'), ('class:mssql', 't_br'), ('class:oracle', 't_dq')]
 
@@ -138,6 +139,15 @@ def _render_paths(names):
         except Exception as e:   # noqa
             out.append((spec, style, [], None, '%s: %s' % (type(e).__name__, e)))
             continue
+        # constants next to the names: a few string values with the characters that targets treat specially
+        from mindsdb_sql.parser.ast import Constant, BinaryOperation
+        for v in RENDER_VALUES:
+            q = Select(targets=[Identifier(parts=['c'])], from_table=Identifier(parts=['t']),
+                       where=BinaryOperation('=', args=[Identifier(parts=['c']), Constant(v)]))
+            try:
+                out.append((spec, style, ('VALUE', [ord(ch) for ch in v]), rnd.get_string(q, with_failback=False), None))
+            except Exception as e:   # noqa
+                out.append((spec, style, ('VALUE', [ord(ch) for ch in v]), None, '%s: %s' % (type(e).__name__, str(e)[:200])))
         for w in names:
             nm = s_of(w)
             q = Select(targets=[Identifier(parts=[nm]), Identifier(parts=['t', nm], alias=Identifier(parts=[nm]))],
@@ -360,11 +370,23 @@ def run(ctx):
     rtr, rmeta = [], []
     for chunk in rres:
         for spec_, style_, w_, txt_, exc_ in chunk:
+            lit = lambda x: {'t': 'lit', 'w': [ord(ch) for ch in x]}    # noqa
+            if isinstance(w_, tuple) and w_[0] == 'VALUE':
+                if exc_:
+                    ctx.violation('render-value:raises:%s' % exc_.split(':')[0], 'rendering a statement with a string constant raised',
+                                  {'dialect': spec_, 'value': s_of(w_[1]), 'error': exc_})
+                    continue
+                c_, t1_ = [ord('c')], [ord('t')]
+                rtr.append({'kind': 'tstmt', 'style': style_, 'text': [ord(ch) for ch in txt_], 'value': [], 'parts': [],
+                            'segs': [lit('SELECT'), {'t': 'path', 'parts': [c_]}, lit('FROM'), {'t': 'path', 'parts': [t1_]}, lit('WHERE'),
+                                     {'t': 'path', 'parts': [c_]}, lit('='),
+                                     {'t': 'str', 'style': 'mysql' if style_ == 't_bq' else 'std', 'value': w_[1]}]})
+                rmeta.append((spec_, w_[1], txt_))
+                continue
             if exc_:
                 ctx.violation('render-path:raises:%s' % exc_.split(':')[0], 'rendering a statement whose names contain unusual characters raised',
                               {'dialect': spec_, 'name': s_of(w_), 'error': exc_})
                 continue
-            lit = lambda x: {'t': 'lit', 'w': [ord(ch) for ch in x]}    # noqa
             t_, db_ = [ord('t')], [ord('d'), ord('b')]
             rtr.append({'kind': 'tstmt', 'style': style_, 'text': [ord(ch) for ch in txt_], 'value': [], 'parts': [],
                         'segs': [lit('SELECT'), {'t': 'path', 'parts': [w_]}, lit(','), {'t': 'path', 'parts': [t_, w_]}, lit('AS'),
